@@ -14,7 +14,7 @@ Import ListNotations.
 Lemma dag_wf_from_set_nth n : forall cells base k x,
   dag_wf_from n base cells -> node_wf n (base + k) x -> dag_wf_from n base (set_nth k x cells).
 Proof.
-  induction cells as [|c t IH]; intros base k x Hwf Hx; [exact I|].
+  induction cells as [|c t IH]; intros base k x Hwf Hx; [destruct k; exact I|].
   destruct Hwf as (Hc & Ht). destruct k as [|k]; cbn [set_nth dag_wf_from].
   - rewrite Nat.add_0_r in Hx. split; [exact Hx|exact Ht].
   - split; [exact Hc|]. apply IH; [exact Ht|].
@@ -24,7 +24,7 @@ Qed.
 Lemma Forall_set_nth {A} (P : A -> Prop) : forall l k x,
   Forall P l -> P x -> Forall P (set_nth k x l).
 Proof.
-  induction l as [|h t IH]; intros k x Hl Hx; [constructor|].
+  induction l as [|h t IH]; intros k x Hl Hx; [destruct k; constructor|].
   inversion Hl as [|? ? Hh Ht]; subst. destruct k; cbn [set_nth]; constructor; auto.
 Qed.
 
@@ -97,7 +97,7 @@ Proof.
       * apply dag_wf_from_set_nth; [exact Hwf|exact Hnw].
       * apply Forall_set_nth; [exact Hok|]. unfold node_ok, with_type. cbn [n_mask n_special n_type n_bits].
         split; [exact Em|reflexivity].
-  - injection E as <-. rewrite <- Hlen. split; [exact Hwf|exact Hok].
+  - injection E as <-. split; [exact Hwf|exact Hok].
 Qed.
 
 Lemma repeat_empty_wf n : forall K i, dag_wf_from n i (repeat empty_cell K).
